@@ -491,20 +491,22 @@ impl Session {
             Some(flow_next_incoming_id) => {
                 // The remote-incoming-window is computed as follows:
                 // next-incoming-id_flow + incoming-window_flow - next-outgoing-id_endpoint
-                self.remote_incoming_window = flow_next_incoming_id
-                    .saturating_add(flow.incoming_window)
-                    .saturating_sub(self.next_outgoing_id);
+                self.remote_incoming_window = remaining_window(
+                    flow_next_incoming_id.wrapping_add(flow.incoming_window),
+                    self.next_outgoing_id,
+                );
             }
             None => {
                 // If the next-incoming-id field of the flow frame is not set,
                 // then remote-incoming-window is computed as follows:
                 // initial-outgoing-id_endpoint + incoming-window_flow -
                 // next-outgoing-id_endpoint
-                self.remote_incoming_window = self
-                    .initial_outgoing_id
-                    .value()
-                    .saturating_add(flow.incoming_window)
-                    .saturating_sub(self.next_outgoing_id);
+                self.remote_incoming_window = remaining_window(
+                    self.initial_outgoing_id
+                        .value()
+                        .wrapping_add(flow.incoming_window),
+                    self.next_outgoing_id,
+                );
             }
         }
 
@@ -569,6 +571,21 @@ impl Session {
             ));
         }
         Ok(frames)
+    }
+}
+
+/// Number of transfer frames that can still be sent before reaching `limit`
+/// (next-incoming-id + incoming-window as advertised by the peer).
+///
+/// Transfer ids are serial numbers (RFC 1982) that wrap around at 2^32, so the
+/// difference must be computed with wrapping arithmetic. A limit that is behind
+/// `next_outgoing_id` (a stale flow) leaves no room.
+fn remaining_window(limit: TransferNumber, next_outgoing_id: TransferNumber) -> SequenceNo {
+    let diff = limit.wrapping_sub(next_outgoing_id);
+    if diff > u32::MAX / 2 {
+        0
+    } else {
+        diff
     }
 }
 
